@@ -76,22 +76,33 @@ def run_unit(name, rlimit=None, extra_args=(), expanded_src=None, use_cache=True
     else:
         seeds = list(portfolio) if portfolio else [None]
         procs = []
+        tmpd = os.path.join(BUILD, "run")
+        os.makedirs(tmpd, exist_ok=True)
         for sd in seeds:
             a2 = list(args)
             if sd is not None:
                 a2 += ["--smt-option", "smt.random_seed=%d" % sd, "--smt-option", "sat.random_seed=%d" % sd]
-            procs.append((sd, subprocess.Popen(a2, stdout=subprocess.PIPE, stderr=subprocess.PIPE, text=True,
-                                               cwd=os.path.join(BUILD, "units"))))
+            # output goes to files: a pipe that nobody drains while polling blocks verus once it is full
+            base = os.path.join(tmpd, "%s.%s.%d" % (name, sd, os.getpid()))
+            fo, fe = open(base + ".out", "w+"), open(base + ".err", "w+")
+            procs.append((sd, subprocess.Popen(a2, stdout=fo, stderr=fe, text=True, start_new_session=True,
+                                               cwd=os.path.join(BUILD, "units")), fo, fe, base))
         deadline = t0 + (timeout or VERUS_TIMEOUT)
         finished = {}
         winner = None
+
+        def _collect(pr, fo, fe):
+            fo.flush(); fe.flush()
+            fo.seek(0); fe.seek(0)
+            return fo.read(), fe.read(), pr.returncode
+
         while time.time() < deadline and len(finished) < len(procs) and winner is None:
-            for sd, pr in procs:
+            for sd, pr, fo, fe, base in procs:
                 if sd in finished:
                     continue
                 if pr.poll() is not None:
-                    o, e = pr.communicate()
-                    finished[sd] = (o, e, pr.returncode)
+                    o, e, c = _collect(pr, fo, fe)
+                    finished[sd] = (o, e, c)
                     # success = exactly one error (the canary) and nothing else
                     try:
                         jo = json.loads(o[o.index('{'):])
@@ -105,12 +116,22 @@ def run_unit(name, rlimit=None, extra_args=(), expanded_src=None, use_cache=True
                         pass
             if winner is None:
                 time.sleep(0.2)
-        for sd, pr in procs:
+        for sd, pr, fo, fe, base in procs:
             if pr.poll() is None:
-                pr.kill()
+                # verus starts z3 children: kill the whole process group, not just verus
                 try:
-                    pr.communicate(timeout=5)
+                    os.killpg(pr.pid, 9)
                 except Exception:
+                    pr.kill()
+                try:
+                    pr.wait(timeout=5)
+                except Exception:
+                    pass
+            fo.close(); fe.close()
+            for ext in (".out", ".err"):
+                try:
+                    os.remove(base + ext)
+                except OSError:
                     pass
         r.wall_s = time.time() - t0
         if winner is not None:
